@@ -185,5 +185,27 @@ def m3(proj, rep):
                 rep.violation('M3', f'{f.qual}[collapse]', f'`{t(col)[:80]}` reads a different slice than it writes', m, col)
             else:
                 rep.violation('M3', f'{f.qual}[collapse]', f'the buffer `{buf}` is not zero-initialised: amplitudes of the other outcomes survive', m, col)
+    # (e) the sampled outcome index is decoded over the sizes of the KEPT groups, taken at their positions
+    n += 1
+    ur = next((c for c in ast.walk(f.node) if isinstance(c, ast.Call) and t(c.func).endswith('unravel_index') and len(c.args) == 2), None)
+    if ur is None:
+        rep.undecided('M3', f'{f.qual}[decode]', 'np.unravel_index(outcome, kept sizes) not found', m, f.node, text='decode')
+        n -= 1
+    else:
+        a1 = ur.args[1]
+        if isinstance(a1, ast.Name):
+            d = [s.value for s in ast.walk(f.node) if isinstance(s, ast.Assign) and isinstance(s.targets[0], ast.Name) and s.targets[0].id == a1.id]
+            a1 = d[-1] if d else a1
+        ta = t(a1)
+        if ta in (f'tuple({shp}[x]forxin{keep})', f'tuple(({shp}[x]forxin{keep}))', f'[{shp}[x]forxin{keep}]'):
+            rep.ok('M3', f'{f.qual}[decode]', f'outcome index unravelled over ({shp}[x] for x in {keep})', m, ur)
+        elif isinstance(ur.args[1], ast.Name) and ur.args[1].id not in (shp,) and not isinstance(a1, (ast.Call, ast.ListComp, ast.GeneratorExp, ast.Tuple)):
+            rep.violation('M3', f'{f.qual}[decode]', f'`{t(ur)}`: the sizes used to decode the outcome (`{ur.args[1].id}`) are not the sizes of the kept groups at their positions '
+                          f'`tuple({shp}[x] for x in {keep})`: when measured and unmeasured blocks have different widths the wrong slice is selected (or an index error is raised)', m, ur)
+        elif ta.startswith(f'{shp}['):
+            rep.violation('M3', f'{f.qual}[decode]', f'`{t(ur)}`: a slice of the grouped shape is not the sizes of the kept groups at their positions', m, ur)
+        else:
+            rep.undecided('M3', f'{f.qual}[decode]', f'decode sizes `{ta[:50]}` not recognised', m, ur)
+            n -= 1
     rep.count('M3.obligations', n)
     return n
